@@ -30,6 +30,8 @@ func NewGen(w *World, fn *ssa.Function, fc *FuncContract, pc *PkgContracts) *Gen
 	g.callCount = map[string]int{}
 	g.usedUFuns = map[string]bool{}
 	g.heap0 = &Heap{}
+	g.leafT = map[string]types.Type{}
+	g.leafDepth = map[string]int{}
 	g.startHeap = map[*ssa.BasicBlock]*Heap{}
 	g.rangeOver = map[*ssa.Range]ssa.Value{}
 	g.nilProved = map[string][]*ssa.BasicBlock{}
@@ -180,6 +182,8 @@ func (g *Gen) typeFacts(guard string, v Val) {
 			// lengths are bounded so that off+len does not wrap (Go's allocator guarantees far less)
 			max := bvConst(new(big.Int).Lsh(big.NewInt(1), 48), 64)
 			g.assume(guard, and(g.idxLe(v.Cap, max), g.idxLe(v.Off, max)))
+		} else {
+			g.assume(guard, "(<= "+v.Cap+" 9223372036854775807)")
 		}
 	case kStruct:
 		for _, f := range v.Fs {
@@ -350,9 +354,15 @@ func (g *Gen) execBlock(b *ssa.BasicBlock) {
 	if li != nil {
 		g.enterLoop(li, b)
 	}
-	for _, in := range b.Instrs[idx:] {
+	g.curIdx = idx
+	if li != nil {
+		g.curIdx = idx // invariants at the header see only the phis
+	}
+	for k, in := range b.Instrs[idx:] {
+		g.curIdx = idx + k
 		g.execInstr(in)
 	}
+	g.curIdx = len(b.Instrs)
 	g.endHeap[b] = g.heap
 	// back edges leaving this block: check invariants
 	for _, s := range b.Succs {
@@ -403,17 +413,17 @@ func (g *Gen) loopEnv(li *loopInfo, phiOverride map[string]Val) *Env {
 	for k, v := range g.params {
 		env.vars[k] = v
 	}
-	env.resolve = func(name string) (Val, bool) {
+	env.resolve = func(name string, h *Heap) (Val, bool) {
 		if v, ok := phiOverride[name]; ok {
 			return v, true
 		}
-		return g.resolveLocal(name, li.header)
+		return g.resolveLocal(name, li.header, h)
 	}
 	return env
 }
 
 // resolveLocal finds the value of a source-level local variable as seen at the start of block `at`.
-func (g *Gen) resolveLocal(name string, at *ssa.BasicBlock) (Val, bool) {
+func (g *Gen) resolveLocal(name string, at *ssa.BasicBlock, h *Heap) (Val, bool) {
 	// phi at this block
 	for _, in := range at.Instrs {
 		if phi, ok := in.(*ssa.Phi); ok {
@@ -430,7 +440,12 @@ func (g *Gen) resolveLocal(name string, at *ssa.BasicBlock) (Val, bool) {
 	var best *ssa.DebugRef
 	for _, d := range refs {
 		db := d.Block()
-		if db == at || !db.Dominates(at) {
+		if db == at {
+			// same block: only references that were already executed
+			if at != g.curBlock || g.instrIndex(d) >= g.curIdx {
+				continue
+			}
+		} else if !db.Dominates(at) {
 			continue
 		}
 		if _, ok := g.vals[d.X]; !ok {
@@ -449,9 +464,32 @@ func (g *Gen) resolveLocal(name string, at *ssa.BasicBlock) (Val, bool) {
 	}
 	v := g.val(best.X)
 	if best.IsAddr {
-		return g.load(g.heap, g.ptrOf(v)), true
+		return g.load(h, g.ptrOf(v)), true
 	}
 	return v, true
+}
+
+func (g *Gen) instrIndex(in ssa.Instruction) int {
+	for i, x := range in.Block().Instrs {
+		if x == in {
+			return i
+		}
+	}
+	return -1
+}
+
+// localEnv: environment in which source-level local names resolve to their current values at the
+// instruction being executed; parameters keep their entry values (use cur(x) for a reassigned parameter).
+func (g *Gen) localEnv() *Env {
+	env := g.baseEnv()
+	for k, v := range g.params {
+		env.vars[k] = v
+	}
+	env.heap = g.heap
+	env.old = g.heap0
+	b := g.curBlock
+	env.resolve = func(name string, h *Heap) (Val, bool) { return g.resolveLocal(name, b, h) }
+	return env
 }
 
 func (g *Gen) enterLoop(li *loopInfo, b *ssa.BasicBlock) {
@@ -488,15 +526,9 @@ func (g *Gen) enterLoop(li *loopInfo, b *ssa.BasicBlock) {
 			g.heap.m["$alloc"] = nr
 			continue
 		}
-		srt, ok := g.heapSorts[n]
-		if !ok {
-			srt = g.guessHeapSort(n)
-			if srt == "" {
-				continue
-			}
-		}
+		srt := names[n]
 		old := g.heapGet(g.heap, n, srt)
-		nh := g.fresh("H:"+n, srt)
+		nh := g.freshHeap("H:", n, srt)
 		if locs, ok := restrict[n]; ok && !strings.HasPrefix(n, "cell:") {
 			// loop modifies only the listed objects of this heap
 			t := old
@@ -519,6 +551,10 @@ func (g *Gen) enterLoop(li *loopInfo, b *ssa.BasicBlock) {
 		g.vals[phi] = v
 		g.typeFacts(g.curReach, v)
 		g.watchVal(fmt.Sprintf("%s %s", tag, phi.Comment), v)
+		if ii, ok := intInfoOf(phi.Type()); ok && ii.bits == 64 && v.K == kScalar {
+			g.witness(v.S, phi.Type())
+			g.witness(g.idxAdd(v.S, g.idxConst(1)), phi.Type())
+		}
 	}
 	// automatic invariant of go/ssa's range-index loops: -1 <= rangeindex < len (checked below like any other)
 	for _, ar := range g.autoRangeInv(li) {
@@ -664,7 +700,7 @@ func (g *Gen) havocEverything(why string) {
 			g.heap.m["$alloc"] = nr
 			continue
 		}
-		g.heap.m[n] = g.fresh("Hx:"+n, g.heapSorts[n])
+		g.heap.m[n] = g.freshHeap("Hx:", n, g.heapSorts[n])
 	}
 	// heaps first touched later still see their initial constant: mark generation so that they get a fresh one
 	g.heap.m["$gen"] = fmt.Sprint(g.havocAll)
@@ -731,6 +767,18 @@ func constInt(v ssa.Value) *big.Int {
 // ---------- instructions ----------
 
 func (g *Gen) execInstr(in ssa.Instruction) {
+	if len(g.pendingAsserts) > 0 {
+		switch in.(type) {
+		case *ssa.DebugRef, *ssa.Extract, *ssa.Store:
+		default:
+			pa := g.pendingAsserts
+			g.pendingAsserts = nil
+			env := g.localEnv()
+			for _, c := range pa {
+				g.oblig("assert", c.Name, g.evalBool(c.Expr, env), c.Src, in.Pos(), true)
+			}
+		}
+	}
 	switch x := in.(type) {
 	case *ssa.DebugRef:
 		return
@@ -906,10 +954,11 @@ func (g *Gen) boundsCheck(i, n string, pos token.Pos) {
 func (g *Gen) indexAddr(x *ssa.IndexAddr) Val {
 	base := g.val(x.X)
 	i := g.toIdx(g.val(x.Index))
+	g.witness(i, intT)
 	switch u := x.X.Type().Underlying().(type) {
 	case *types.Slice:
 		g.boundsCheck(i, base.Len, x.Pos())
-		return Val{K: kPtr, T: x.Type(), P: &Ptr{Prefix: "[]" + g.typeName(u.Elem()), Idx: []string{base.Arr, g.idxAdd(base.Off, i)}, T: u.Elem()}}
+		return Val{K: kPtr, T: x.Type(), P: &Ptr{Prefix: "[]" + g.typeName(u.Elem()), Idx: []string{base.Arr, g.elemIdx(base.Off, i)}, T: u.Elem()}}
 	case *types.Pointer:
 		at := u.Elem().Underlying().(*types.Array)
 		g.boundsCheck(i, g.idxConst(at.Len()), x.Pos())
@@ -941,7 +990,7 @@ func (g *Gen) sliceOp(x *ssa.Slice) Val {
 		}
 		goal := and(g.idxLe(z, lo), g.idxLe(lo, hi), g.idxLe(hi, mx), g.idxLe(mx, base.Cap))
 		g.oblig("bounds", g.srcText(x.Pos()), goal, "slice bounds 0 <= lo <= hi <= max <= cap", x.Pos(), false)
-		return Val{K: kSlice, T: x.Type(), Arr: base.Arr, Off: g.idxAdd(base.Off, lo), Len: g.idxSub(hi, lo), Cap: g.idxSub(mx, lo)}
+		return Val{K: kSlice, T: x.Type(), Arr: base.Arr, Off: g.elemIdx(base.Off, lo), Len: g.idxSub(hi, lo), Cap: g.idxSub(mx, lo)}
 	case *types.Basic: // string
 		hi := "(slen " + base.S + ")"
 		if x.High != nil {
@@ -959,7 +1008,11 @@ func (g *Gen) sliceOp(x *ssa.Slice) Val {
 		}
 		goal := and(g.idxLe(z, lo), g.idxLe(lo, hi), g.idxLe(hi, n))
 		g.oblig("bounds", g.srcText(x.Pos()), goal, "array slice bounds", x.Pos(), false)
-		panic(unsupported("slicing an array (array-backed slices are not modelled)"))
+		if base.K != kScalar {
+			panic(unsupported("slicing an array that is embedded in a struct (only standalone arrays are modelled)"))
+		}
+		// standalone arrays live in the element heap of []T at their own reference
+		return Val{K: kSlice, T: x.Type(), Arr: base.S, Off: lo, Len: g.idxSub(hi, lo), Cap: g.idxSub(n, lo)}
 	}
 	panic(unsupported("Slice on %s", x.X.Type()))
 }
@@ -1101,7 +1154,7 @@ func (g *Gen) convert(x *ssa.Convert) Val {
 		k := g.qvar()
 		eh := g.heapGet(g.heap, "[]uint8", g.heapSort(g.byteSort(), 2))
 		g.assume(g.curReach, fmt.Sprintf("(forall ((%s %s)) (! (=> %s (= (sat %s %s) (select (select %s %s) %s))) :pattern ((sat %s %s))))",
-			k, g.idxSort(), and(g.idxLe(g.idxConst(0), k), g.idxLt(k, a.Len)), s, k, eh, a.Arr, g.idxAdd(a.Off, k), s, k))
+			k, g.idxSort(), and(g.idxLe(g.idxConst(0), k), g.idxLt(k, a.Len)), s, k, eh, a.Arr, g.elemIdx(a.Off, k), s, k))
 		return sv(to, s)
 	case isByteSlice(to) && isString(from):
 		arr := g.newRef("bytes")
@@ -1266,13 +1319,8 @@ func (g *Gen) doReturn(x *ssa.Return) {
 	for i, r := range x.Results {
 		results = append(results, g.coerce(g.val(r), sig.Results().At(i).Type()))
 	}
-	env := g.baseEnv()
-	for k, v := range g.params {
-		env.vars[k] = v
-	}
+	env := g.localEnv()
 	env.results = results
-	env.heap = g.heap
-	env.old = g.heap0
 	// named results
 	for i := 0; i < sig.Results().Len(); i++ {
 		if n := sig.Results().At(i).Name(); n != "" && n != "_" {
@@ -1286,6 +1334,9 @@ func (g *Gen) doReturn(x *ssa.Return) {
 		g.watchVal(fmt.Sprintf("result.%d", i), r)
 	}
 	for i, c := range g.fc.Ensures {
+		if c.Ret != 0 && c.Ret != g.retOrdinal(x) {
+			continue
+		}
 		goal := g.evalBool(c.Expr, env)
 		g.oblig("post", fmt.Sprintf("%s@ret%d", clauseName(c, i), g.retOrdinal(x)), goal, c.Src, x.Pos(), true)
 	}
